@@ -136,6 +136,19 @@ def generic_monitors(case, obs):
         out.append(fail('stack-not-balanced', f'pipeline call stack depth after the run is {obs["stack_depth_after"]}'))
     if obs['outcome'][0] == 'ok' and obs.get('returned_same_context') is False:
         out.append(fail('returned-context', 'run() did not return the context the pipeline ran on'))
+    # an AttributeError / UnboundLocalError ABOUT pypyr's own objects is nobody's step error: whatever
+    # the pipeline does, the caller (and runErrors) only ever see errors raised by steps and decorators
+    seen = [(e.get('name'), e.get('description') or '') for e in engine.run_errors(obs)]
+    if obs['outcome'][0] == 'err':
+        seen.append((obs['outcome'][1], obs['outcome'][2] if len(obs['outcome']) > 2 and obs['outcome'][2] else ''))
+    for name, msg in seen:
+        if name in ('AttributeError', 'UnboundLocalError') and any(
+                t in msg for t in ("'Step' object", "'RetryDecorator' object", "'WhileDecorator' object",
+                                   "'Pipeline' object", "'StepsRunner' object", "'steps_runner'",
+                                   "'run_step_groups'", "local variable", "cannot access local variable")):
+            out.append(fail('internal-error', f'{name}: {msg} - an error about the engine\'s own objects, not one '
+                                              f'raised by a step'))
+            break
     return out
 
 
@@ -148,6 +161,9 @@ class RefProp(EngineProp):
         out = generic_monitors(case, obs)
         ref, d = ref_diffs(case, obs)
         if ref is None:
+            return out
+        if 'foreach-literal-falsy' in ref['notes'] and 'foreach-literal-falsy' not in self.known_notes:
+            # the literal-falsy foreach (finding F7, recorded under C05) is judged by C05 alone
             return out
         for a in self.aspects:
             if a in d:
